@@ -118,6 +118,7 @@ type Config struct {
 	Env          *EnvConfig
 	Params       map[string]int
 	IntMode      bool
+	Fallback     string // second solver tried when the first answers unknown
 	QueryLog     string // file to log deciding queries for cross-checking
 	Verbose      bool
 }
@@ -129,6 +130,7 @@ type Stats struct {
 	SolverTime                       time.Duration
 	Inconclusive                     int
 	InconclusiveFeas                 int
+	FallbackQueries, FallbackDecided int
 	SolverErrors                     int
 	Unwind                           []string
 	EngineErrors                     []string
@@ -150,6 +152,7 @@ type worker struct {
 	stats  *Stats
 	mu     *sync.Mutex
 	qlog   *os.File
+	fallback *Solver
 }
 
 var qtrace = os.Getenv("GOSYM_QTRACE") != ""
@@ -168,6 +171,28 @@ func (i *interpreter) check(extra *Term, wantModel bool, kind string) (SatResult
 	as := append(append([]*Term{}, ps.pc...), extra)
 	tq := time.Now()
 	res, m, script := i.w.solver.Check(as, wantModel)
+	if res == Unknown && i.w.cfg.Fallback != "" {
+		// portfolio: a second solver build gets the queries the first cannot decide
+		if i.w.fallback == nil {
+			fb, err := NewSolver(i.w.cfg.Fallback, i.w.cfg.TimeoutMS)
+			if err == nil {
+				fb.IntMode = i.w.cfg.IntMode
+				i.w.fallback = fb
+			}
+		}
+		if i.w.fallback != nil {
+			r2, m2, _ := i.w.fallback.Check(as, wantModel)
+			i.w.mu.Lock()
+			i.w.stats.FallbackQueries++
+			if r2 != Unknown {
+				i.w.stats.FallbackDecided++
+			}
+			i.w.mu.Unlock()
+			if r2 != Unknown {
+				res, m = r2, m2
+			}
+		}
+	}
 	if qtrace {
 		fmt.Fprintf(os.Stderr, "Q %s %s %v at %s\n", kind, res, time.Since(tq), i.where())
 		if time.Since(tq) > 2*time.Second {
@@ -652,6 +677,7 @@ func Explore(p *Program, cfg Config) (*Stats, error) {
 		go func() {
 			defer wg.Done()
 			defer w.solver.Close()
+			defer func() { w.fallback.Close() }()
 			for {
 				job, ok := q.pop()
 				if !ok {
@@ -818,6 +844,7 @@ func (st *Stats) Summary() map[string]any {
 		"paths": st.Paths, "aborted": st.Aborted, "nontrivial_paths": st.NontrivialPaths,
 		"queries": map[string]int{"feasibility": st.QFeas, "assertion": st.QAssert, "enumeration": st.QEnum},
 		"solver_time_s": st.SolverTime.Seconds(), "wall_s": st.Wall.Seconds(),
+		"fallback_queries": st.FallbackQueries, "fallback_decided": st.FallbackDecided,
 		"inconclusive": st.Inconclusive, "inconclusive_feasibility_kept": st.InconclusiveFeas, "solver_errors": st.SolverErrors,
 		"unwind": st.Unwind, "engine_errors": st.EngineErrors, "covers": st.Covers,
 		"violations": viols, "max_decisions": st.MaxDecs, "samples": st.Samples,
